@@ -1,6 +1,10 @@
 // Contract vocabulary shared by the three algorithms (DESIGN.md section 4/5, C01 C07 C08)
 verus! {
 
+/// the checking level an algorithm guarantees: fully exact carried indices unless a deadline may cut the search short
+/// (the fallback then emits an Insert that carries the start of the deleted block)
+pub open spec fn alg_lvl(deadline: Option<Instant>) -> int { if deadline is None { 2 } else { 1 } }
+
 /// the size bound under which machine arithmetic is checked (assumption 6 of DESIGN.md section 6)
 pub open spec fn size_ok(or: Range<usize>, nr: Range<usize>) -> bool {
     (or.end - or.start) + (nr.end - nr.start) + 4 <= isize::MAX
@@ -11,17 +15,17 @@ pub open spec fn box_pre<Old: Index<usize> + ?Sized, New: Index<usize> + ?Sized>
 }
 
 /// what a relying hook must be expecting when an algorithm starts on the box (or, nr)
-pub open spec fn rely_pre<Old: Index<usize> + ?Sized, New: Index<usize> + ?Sized, D: DiffHook>(d: D, old: &Old, or: Range<usize>, new: &New, nr: Range<usize>) -> bool
+pub open spec fn rely_pre<Old: Index<usize> + ?Sized, New: Index<usize> + ?Sized, D: DiffHook>(d: D, old: &Old, or: Range<usize>, new: &New, nr: Range<usize>, lvl: int) -> bool
   where New::Output: PartialEq<Old::Output>
 {
     d.relies() ==> rel_implies(rel_of(old, new), d.rely_rel()) && wf(d.rely_st())
-        && d.rely_st().oc == or.start && d.rely_st().nc == nr.start && d.rely_st().oe >= or.end && d.rely_st().ne >= nr.end
+        && d.rely_st().oc == or.start && d.rely_st().nc == nr.start && d.rely_st().oe >= or.end && d.rely_st().ne >= nr.end && d.rely_st().lvl <= lvl
 }
 
-pub open spec fn diff_pre<Old: Index<usize> + ?Sized, New: Index<usize> + ?Sized, D: DiffHook>(d: D, old: &Old, or: Range<usize>, new: &New, nr: Range<usize>) -> bool
+pub open spec fn diff_pre<Old: Index<usize> + ?Sized, New: Index<usize> + ?Sized, D: DiffHook>(d: D, old: &Old, or: Range<usize>, new: &New, nr: Range<usize>, lvl: int) -> bool
   where New::Output: PartialEq<Old::Output>
 {
-    !d.failed() && box_pre(old, or, new, nr) && rely_pre(d, old, or, new, nr)
+    !d.failed() && box_pre(old, or, new, nr) && rely_pre(d, old, or, new, nr, lvl)
 }
 
 /// C08: the hook is failed exactly when the call returns an error, and that error is the hook's;
@@ -33,10 +37,10 @@ pub open spec fn err_post<D: DiffHook>(d0: D, d1: D, res: Result<(), D::Error>) 
 
 /// C01: on success the hook has received exactly a valid script segment for the box, then `tail`
 pub open spec fn seg_post<Old: Index<usize> + ?Sized, New: Index<usize> + ?Sized, D: DiffHook>(
-    d0: D, d1: D, old: &Old, or: Range<usize>, new: &New, nr: Range<usize>, tail: Seq<Ev>, is_ok: bool) -> bool
+    d0: D, d1: D, old: &Old, or: Range<usize>, new: &New, nr: Range<usize>, lvl: int, tail: Seq<Ev>, is_ok: bool) -> bool
   where New::Output: PartialEq<Old::Output>
 {
-    is_ok ==> exists|s: Seq<Ev>| #[trigger] seg(old, new, s, or.start as int, nr.start as int, or.end as int, nr.end as int)
+    is_ok ==> exists|s: Seq<Ev>| #[trigger] seg(old, new, lvl, s, or.start as int, nr.start as int, or.end as int, nr.end as int)
         && d1.trace() == d0.trace() + s + tail
         && (d0.relies() ==> d1.rely_st() == run_rel(d0.rely_rel(), d0.rely_st(), s + tail))
 }
@@ -53,8 +57,8 @@ pub proof fn lemma_run_fin<D: DiffHook>(rel: Rel, st: St, s: Seq<Ev>)
 }
 
 /// the running invariant of an algorithm body: the hook has received the segment `s` so far
-pub open spec fn alg_inv<D: DiffHook>(d: D, d0: D, t0: Seq<Ev>, s: Seq<Ev>, rel: Rel, rs0: St, o0: int, n0: int, oc: int, nc: int) -> bool {
-    seg_rel(rel, s, o0, n0, oc, nc) && d.trace() == t0 + s && !d.failed() && d.relies() == d0.relies() && d.rely_rel() == d0.rely_rel() && d.accepts_replace() == d0.accepts_replace()
+pub open spec fn alg_inv<D: DiffHook>(d: D, d0: D, t0: Seq<Ev>, s: Seq<Ev>, rel: Rel, lvl: int, rs0: St, o0: int, n0: int, oc: int, nc: int) -> bool {
+    seg_rel(rel, lvl, s, o0, n0, oc, nc) && d.trace() == t0 + s && !d.failed() && d.relies() == d0.relies() && d.rely_rel() == d0.rely_rel() && d.accepts_replace() == d0.accepts_replace()
     && (d0.relies() ==> d.rely_st() == run_rel(d0.rely_rel(), rs0, s))
 }
 
